@@ -246,6 +246,28 @@ func (in *Interp) binop(st *State, op token.Token, a, b Value, t types.Type) Val
 			return smt.Concat(x, y)
 		}
 	case smt.Int:
+		if x.IsConst() && y.IsConst() {
+			switch op {
+			case token.AND:
+				return smt.IntC(x.I & y.I)
+			case token.OR:
+				return smt.IntC(x.I | y.I)
+			case token.XOR:
+				return smt.IntC(x.I ^ y.I)
+			case token.SHL:
+				return smt.IntC(x.I << uint(y.I))
+			case token.SHR:
+				return smt.IntC(x.I >> uint(y.I))
+			case token.QUO:
+				if y.I != 0 {
+					return smt.IntC(x.I / y.I)
+				}
+			case token.REM:
+				if y.I != 0 {
+					return smt.IntC(x.I % y.I)
+				}
+			}
+		}
 		switch op {
 		case token.ADD:
 			return smt.Add(x, y)
